@@ -34,6 +34,25 @@ TABLE = [
      "seven directives x generated parameter sets x header configurations (CRC, large file, 16 width pairs): octets == reference, data-field "
      "length, decode to same class / identical observed fields / == / identical re-pack; over-width sizes must fail to pack",
      ORACLE_NOTE, "DESIGN.md section 4 C06"),
+    ("C07", "exploration",
+     PBT + " against a reference File Data encoder; helper-function metamorphic check",
+     "offset / segment metadata / file data (empty, tiny, 4096, near the 65535 limit) x header configurations incl. segmentation control and CRC: octets == reference, "
+     "decoded data exactly as long as sent, lengths consistent after decode, == and re-pack; metadata > 63 refused; max-segment helper packs to exactly the maximum",
+     ORACLE_NOTE, "DESIGN.md section 4 C07"),
+    ("C08", "exploration",
+     PBT + " against reference TLV/LV layouts + exhaustive status-code grid + foreign-type matrix",
+     "generic TLV/LV over all types and value lengths 0..255 with continuation octets; six concrete TLVs over action x status x names (multi-octet characters) through "
+     "unpack / from_tlv / holder; all 144 (action,status) pairs through the mapping helpers; every (class, foreign type, route) combination must raise the mismatch error",
+     ORACLE_NOTE, "DESIGN.md section 4 C08"),
+    ("C12", "exploration",
+     PBT + ": factory dispatch and holder casts over all kinds x width combinations, oracle = class identity + reference parser",
+     "8 PDU kinds x 16 (id width, seq width) pairs x CRC x large file through PduFactory.from_raw / inspectors / holder; all 64 (held kind, accessor) pairs per case",
+     ORACLE_NOTE, "DESIGN.md section 4 C12"),
+    ("C18", "exploration",
+     PBT + " against reference reserved-message layouts; negative clause over arbitrary octets",
+     "nine reserved message kinds with all id widths / enum values / name lengths from empty to the full TLV budget decoded back through four routes, every non-matching "
+     "getter must return None; arbitrary (incl. non-UTF-8) contents must classify as not reserved without raising",
+     ORACLE_NOTE, "DESIGN.md section 4 C18"),
     ("C20", "exploration",
      PBT + " + exhaustive enumeration of widths 0/1/2 against an int.to_bytes oracle",
      "every (width,value) pair for widths 0,1,2 enumerated; widths 4/8 sampled boundary-weighted over the full range; "
